@@ -82,7 +82,13 @@ func checkC02(c *Ctx) {
 				if u, ok := arg.(*ast.UnaryExpr); ok {
 					arg = u.X
 				}
-				if o := identObj(info, arg); o != nil {
+				// &p.Field[i] / p.Field[i]: an element of a field of the argument, whatever the loop form
+				if ie, ok := unparen(arg).(*ast.IndexExpr); ok {
+					if fv, x := fieldOfSel(info, ie.X); fv != nil && identObj(info, x) == p0 {
+						good = true
+					}
+				}
+				if o := identObj(info, arg); o != nil && !good {
 					for _, s := range stackTo(fi.Decl.Body, call) {
 						if rs, ok := s.(*ast.RangeStmt); ok && rs.Value != nil && identObj(info, rs.Value) == o {
 							if fv, x := fieldOfSel(info, rs.X); fv != nil && identObj(info, x) == p0 {
